@@ -4,7 +4,7 @@ CONSTANTS
     k3 = k3
     Key = {k1, k2, k3}
     KeyOrd <- KeyOrdDef
-    StakeVals = {1, 2}
+    StakeVals = {0, 1, 2}
     Node = {signer, aggregator}
 SPECIFICATION Spec
 INVARIANTS Agreement CommitsToSet InjectiveOnce
